@@ -41,34 +41,47 @@ theorem xap_sign_then_verify (parse : Bytes → Option Bytes) (H : Bytes → Byt
   simp only [Bool.false_eq_true, if_false]
   rw [htake, if_pos rfl]
 
-/-- what `base` is, exactly: the whole file unless the last ten bytes of the directory blob carry the trailer magic and a
-    `TrailerSize` that fits – then `TrailerSize + 10` bytes are missing from the end, whether or not a header precedes
-    them (see `C03.xap_lookalike_not_preserved`). -/
+/-- **xap_base_cases.** What `base` is, exactly (repaired `removeSignature`): either the whole file – when the directory blob does
+    not end in a complete, consistent frame – or the file is `base z loc` followed by exactly one header ++ blob ++ trailer
+    whose two size fields agree with the blob.  A trailer look-alike without a matching header is left alone (before the
+    repair of FX1 it was cut off: `C03.xap_lookalike_not_preserved`). -/
 theorem xap_base_cases (z : Bytes) (loc : Nat) (hloc : loc ≤ z.length) :
-    (base z loc = z ∧ ¬ (10 ≤ (z.drop loc).length ∧ trMagic (z.drop loc) = trailerMagic ∧ trSize (z.drop loc) + 10 ≤ (z.drop loc).length)) ∨
-    (base z loc = z.take (z.length - (trSize (z.drop loc) + 10)) ∧
-      10 ≤ (z.drop loc).length ∧ trMagic (z.drop loc) = trailerMagic ∧ trSize (z.drop loc) + 10 ≤ (z.drop loc).length) := by
-  rcases removeSignature_cases (z.drop loc) with ⟨h, hn⟩ | ⟨h, h1, h2, h3⟩
+    (base z loc = z ∧ frameSize (z.drop loc) = 0) ∨
+    (∃ u1 u2 u3 : Nat, ∃ blob : Bytes, z = framed (base z loc) u1 u2 u3 blob ∧ blob.length + 8 < 4294967296 ∧
+      frameSize (z.drop loc) = blob.length + 18) := by
+  by_cases h : frameSize (z.drop loc) = 0
   · left
-    refine ⟨?_, hn⟩
-    unfold base; rw [h]; exact List.take_append_drop loc z
+    refine ⟨?_, h⟩
+    show z.take loc ++ removeSignature (z.drop loc) = z
+    unfold removeSignature
+    rw [h, Nat.sub_zero, List.take_length, List.take_append_drop]
   · right
-    refine ⟨?_, h1, h2, h3⟩
-    have e := base_eq_take z loc hloc
-    have hl := base_length z loc hloc
-    rw [h] at hl
-    rw [e, hl]
-    congr 1
-    simp only [List.length_take, List.length_drop] at *
-    omega
+    obtain ⟨u1, u2, u3, blob, e, hk, hb⟩ := frameSize_pos_framed (z.drop loc) h
+    refine ⟨u1, u2, u3, blob, ?_, hb, hk⟩
+    have : z = z.take loc ++ z.drop loc := (List.take_append_drop loc z).symm
+    conv => lhs; rw [this, e]
+    rw [framed_append]
+    rfl
 
-/-- an unsigned input (no trailer look-alike at the end of the directory) is signed into `z ++ header ++ s ++ trailer` -/
-theorem xap_sign_unsigned (z : Bytes) (loc : Nat) (s : Bytes) (hloc : loc ≤ z.length)
-    (hn : ¬ (10 ≤ (z.drop loc).length ∧ trMagic (z.drop loc) = trailerMagic ∧ trSize (z.drop loc) + 10 ≤ (z.drop loc).length)) :
+/-- an input whose directory blob does not end in a signature frame is signed into `z ++ header ++ s ++ trailer` -/
+theorem xap_sign_unsigned (z : Bytes) (loc : Nat) (s : Bytes) (hloc : loc ≤ z.length) (hn : frameSize (z.drop loc) = 0) :
     signRound z loc s = .ok (z ++ sigBlock s) := by
-  rcases xap_base_cases z loc hloc with ⟨h, _⟩ | ⟨_, h⟩
+  rcases xap_base_cases z loc hloc with ⟨h, _⟩ | ⟨_, _, _, _, _, _, h⟩
   · rw [signRound_eq z loc s hloc, h]
-  · exact absurd h hn
+  · omega
+
+/-- **xap_sign_then_verify_module.** The same through the signer module (repaired transform): for an input without a trailing
+    frame whose directory `FindDirectory` locates inside the file, `signFile` writes `z ++ header ++ s ++ trailer`, on which
+    `Verify` finds `s` and hashes exactly `z`. -/
+theorem xap_sign_then_verify_module (z s : Bytes) (loc : Nat) (hu : frameSize z = 0)
+    (hfd : Zip.findDirectory ⟨z, false, 0⟩ = .ok loc) (hloc : loc ≤ z.length)
+    (hs : s.length + 8 < 4294967296) (hl : z.length + s.length + 18 < 9223372036854775808) :
+    signFile z s = .ok (z ++ sigBlock s) ∧
+    locate (z ++ sigBlock s) ((z ++ sigBlock s).length : Int) = .ok ⟨s, z.length, 1, 1, 1⟩ := by
+  constructor
+  · rw [signFile_eq z s loc (by rw [hu, Nat.sub_zero, List.take_length]; exact hfd) hloc, base_of_unsigned z loc hu]
+  · rw [append_sigBlock]
+    exact locate_framed z s 1 1 1 hs (by rw [framed_length]; omega)
 
 /-- **xap_sign_wraps_at_2_32.** At the `uint32` boundary: `Sign` writes `uint32(len(s))` and `uint32(len(s)+8)`.  When
     `|s| + 8 ≥ 2^32` the trailer records `(|s| + 8) mod 2^32`, and whatever `Verify`'s locator then returns on the signed
@@ -110,7 +123,9 @@ example : (33 : Nat) ≤ oneMemberZip.length ∧ ([9, 9, 9] : Bytes).length + 8 
     Zip.findDirectory ⟨oneMemberZip, false, 0⟩ = .ok 33 := by decide
 
 set_option maxRecDepth 100000 in
-example : signRound oneMemberZip 33 [9, 9, 9] = .ok (oneMemberZip ++ sigBlock [9, 9, 9]) :=
-  xap_sign_unsigned _ _ _ (by decide) (by decide)
+example : signRound oneMemberZip 33 [9, 9, 9] = .ok (oneMemberZip ++ sigBlock [9, 9, 9]) ∧
+    signFile oneMemberZip [9, 9, 9] = .ok (oneMemberZip ++ sigBlock [9, 9, 9]) :=
+  ⟨xap_sign_unsigned _ _ _ (by decide) (by decide),
+   (xap_sign_then_verify_module oneMemberZip [9, 9, 9] 33 (by decide) (by decide) (by decide) (by decide) (by decide)).1⟩
 
 end Relic.Props.C01
